@@ -141,7 +141,8 @@ impl C16 {
                     "C16",
                     if data_only { "vertex-data-changed" } else { "vertex-not-congruent-to-input" },
                     ctx.step,
-                    format!("mode={mode}|after={when}"),
+                    // rebuild=true: the call fell back to the heuristic rebuild, which re-inserts (and re-perturbs) every stored vertex
+                    format!("mode={mode}|after={when}|rebuild={}", out.tick_kinds.iter().any(|(k, _)| k == "rebuild.attempt")),
                     format!("vertex {:032x} stored at {:?} (data {:?}); inputs with that uuid: {:?}; periods {:?}", v.uuid, v.coords, v.data, cands, t.periods),
                 ),
             );
